@@ -171,3 +171,13 @@ Definition enum_q_spec (names : list (string * string)) (n : Z) : option (string
   | Some (a, b) => Some (a, b, n, n - 1, (if n =? 1 then None else Some (n - 1)), (if n =? Z.of_nat (List.length names) then None else Some (n + 1)))
   | None => None
   end.
+
+(* what the four predicates on a year kind answer: (is_leap, is_common, is_reform, is_skipped) *)
+Definition ykind_flags (k : YearKind) : bool * bool * bool * bool :=
+  match k with
+  | YearKind_Common => (false, true, false, false)
+  | YearKind_Leap => (true, false, false, false)
+  | YearKind_ReformCommon => (false, true, true, false)
+  | YearKind_ReformLeap => (true, false, true, false)
+  | YearKind_Skipped => (false, false, false, true)
+  end.
